@@ -1,6 +1,7 @@
 package auth
 
 import (
+	"bytes"
 	"encoding/hex"
 	"fmt"
 	posCrypto "github.com/pokt-network/posmint/crypto"
@@ -59,6 +60,10 @@ func ValidateTransaction(ctx sdk.Ctx, k Keeper, stdTx StdTx, params Params, tmNo
 		if pk = acc.GetPubKey(); pk == nil {
 			return types.ErrEmptyPublicKey(ModuleName)
 		}
+	}
+	// the public key must belong to the signer declared by the message
+	if !bytes.Equal(pk.Address(), stdTx.GetSigner()) {
+		return sdk.ErrUnauthorized("public key does not match the signer of the message")
 	}
 	// check for duplicate transaction to prevent replay attacks
 	txHash := tmTypes.Tx(txBz).Hash()
